@@ -4,6 +4,7 @@ import (
 	"errors"
 	"fmt"
 	"io"
+	"math"
 	"math/rand"
 
 	"github.com/acquirecloud/golibs/container"
@@ -116,6 +117,16 @@ func ringErrName(err error) string {
 
 // ringApply performs one call on the real object and returns the reply in the
 // same shape the specification uses.
+// realArg: a step may carry "_n", the argument really passed, when it does not fit TLC's 32-bit
+// integers (math.MaxInt and neighbours); the logged "n" is then a clamped stand-in that the contract
+// treats identically (any n >= Len moves Len elements).
+func realArg(s Step, k string) int {
+	if v, ok := s["_"+k].(int); ok {
+		return v
+	}
+	return s.Int(k)
+}
+
 func ringApply(o ringObj, s Step) Step {
 	got := Step{"op": s.Str("op")}
 	switch s.Str("op") {
@@ -133,11 +144,11 @@ func ringApply(o ringObj, s Step) Step {
 		got["vs"] = vs
 	case "Skip":
 		got["n"] = s.Int("n")
-		got["k"] = o.Skip(s.Int("n"))
+		got["k"] = o.Skip(realArg(s, "n"))
 	case "At":
 		got["i"] = s.Int("i")
 		var v int
-		p, _ := callPanics(func() { v = o.At(s.Int("i")) })
+		p, _ := callPanics(func() { v = o.At(realArg(s, "i")) })
 		got["panic"] = p
 		got["v"] = v
 	case "Clear":
@@ -266,8 +277,16 @@ func driveRing(opt *Options) error {
 				s = Step{"op": "ReadN", "n": n}
 			case k < 15:
 				s = Step{"op": "Skip", "n": arg()}
+				if rnd.Intn(6) == 0 { // the "drain everything" idiom and its neighbours
+					s = Step{"op": "Skip", "n": 1<<31 - 1, "_n": math.MaxInt - rnd.Intn(3)}
+				} else if rnd.Intn(12) == 0 {
+					s = Step{"op": "Skip", "n": -1, "_n": math.MinInt + rnd.Intn(3)}
+				}
 			case k < 17:
 				s = Step{"op": "At", "i": arg()}
+				if rnd.Intn(8) == 0 {
+					s = Step{"op": "At", "i": 1<<31 - 1, "_i": math.MaxInt - rnd.Intn(3)}
+				}
 			case k < 18:
 				s = Step{"op": "Len"}
 			case k < 19:
